@@ -8,6 +8,8 @@ import FsVerif.Proofs.Fleet
 import FsVerif.Proofs.SlotCons
 import FsVerif.Proofs.CBeltCons
 import FsVerif.Props.C12
+import FsVerif.Proofs.SlotBind
+import FsVerif.Proofs.CBeltBind
 namespace FsVerif.Props.C02
 open FsVerif PosStore
 
@@ -124,5 +126,37 @@ example : ((CBelt.run (CBelt.init { cap := 3, p1 := 2, acc := false }) C12.demoC
            (CBelt.run (CBelt.init { cap := 3, p1 := 2, acc := false }) C12.demoC).items.map (·.item.id) ++
              (CBelt.run (CBelt.init { cap := 3, p1 := 2, acc := false }) C12.demoC).ready.map (·.item.id),
            (CBelt.run (CBelt.init { cap := 3, p1 := 2, acc := false }) C12.demoC).entered.map (·.item.id)) = ([5], [6], [5, 6]) := by decide +kernel
+
+/-! ### both conveyor stores: every granted retrieval owns its own item, in every reachable state (no assumption on the client:
+identities may even repeat — the statement is about multisets of identities).  The reservation events and the granted retrievals are
+the same tokens, there is exactly one reserved item per granted retrieval, and the reserved items are the first k items waiting at the
+exit (k = number of granted retrievals), so no two granted retrievals share an item and none is bound to an item that is not there. -/
+
+theorem slot_binding (cfg : SlotCfg) (ops : List SlotBelt.Op) :
+    let s := SlotBelt.run (SlotBelt.init cfg) ops
+    s.resEv.Perm s.getRes ∧ s.resItems.length = s.getRes.length ∧ s.getRes.length ≤ s.ready.length ∧
+    (s.resItems.map (·.item.id)).Perm ((s.ready.take s.getRes.length).map (·.item.id)) := by
+  intro s
+  have h := SlotBelt.run_bd ops _ (SlotBelt.init_bd cfg)
+  have hl := h.ev.length_eq
+  exact ⟨h.ev, by rw [← h.len, hl], by rw [← hl]; exact h.le, by rw [← hl]; exact h.items⟩
+
+theorem cbelt_binding (cfg : CCfg) (ops : List CBelt.Op) :
+    let s := CBelt.run (CBelt.init cfg) ops
+    s.resEv.Perm s.getRes ∧ s.resItems.length = s.getRes.length ∧ s.getRes.length ≤ s.ready.length ∧
+    (s.resItems.map (·.item.id)).Perm ((s.ready.take s.getRes.length).map (·.item.id)) := by
+  intro s
+  have h := CBelt.run_bd ops _ (CBelt.init_bd cfg)
+  have hl := h.ev.length_eq
+  exact ⟨h.ev, by rw [← h.len, hl], by rw [← hl]; exact h.le, by rw [← hl]; exact h.items⟩
+
+/-- non-vacuity: two items at the exit of a slotted conveyor, two granted retrievals bound to them, a third request waiting -/
+def demoSlotBind : List SlotBelt.Op :=
+  [.reservePut 0, .put 0 0 { id := 5 }, .ev, .ev, .ev, .ev, .reservePut 0, .put 0 1 { id := 6 }, .ev, .ev, .ev, .ev,
+   .reserveGet 1, .reserveGet 2, .reserveGet 3]
+
+example : ((SlotBelt.run (SlotBelt.init { cap := 2, delay := 1 }) demoSlotBind).resItems.map (·.item.id),
+           (SlotBelt.run (SlotBelt.init { cap := 2, delay := 1 }) demoSlotBind).getRes.map (·.id),
+           (SlotBelt.run (SlotBelt.init { cap := 2, delay := 1 }) demoSlotBind).getQ.map (·.id)) = ([5, 6], [2, 3], [4]) := by decide +kernel
 
 end FsVerif.Props.C02
